@@ -196,6 +196,22 @@ func (d *decoder) readUint64() (x uint64) {
 	return
 }
 
+// checkUnitLength records an error unless every decoded vertex is of unit
+// length. Any finite coordinates can be read from the wire, but the exact
+// predicates overflow on vectors such as (0.5, 0.1, 1.7e308), and math/big
+// panics on the NaN that results.
+func (d *decoder) checkUnitLength(vertices []Point) {
+	if d.err != nil {
+		return
+	}
+	for i, v := range vertices {
+		if !v.IsUnit() {
+			d.err = fmt.Errorf("vertex %d is not unit length", i)
+			return
+		}
+	}
+}
+
 func (d *decoder) readFloat64() float64 {
 	if d.err != nil {
 		return 0
